@@ -69,6 +69,9 @@ func init() {
 		c.ruleReportGate("testonly")
 		// a method annotation is indexed under the defined type of its receiver (what call sites look up)
 		c.only([]string{"RECEIVER-BY-TYPE"}, func() { c.ruleNoSyntacticType() })
+		// "in a file whose name does not end in _test.go": which files are checked is decided per file, by its name
+		// (a package that is called x_test has ordinary files too)
+		c.ruleOneFilter()
 	}, Explanation: "Every TONL report site: membership in the type/func/method index (+) with resolved-object provenance (direct calls resolved through TypesInfo.Uses to a package-level *types.Func), not in a _test.go file (-), ignore gate on the violation's own code and position before the per-file dedup (-), dedup keyed by package path and type name and created per file; dispatch per call path (CompositeLit; ValueSpec, Field; CallExpr forms). The only prune is below a FuncDecl whose own kind-specific index lookup matches (predicate summary). Index builders filter on the Kind discriminant."})
 
 	registerProp(&propDef{ID: "C04", Rules: func(c *Ctx) {
@@ -116,6 +119,11 @@ func init() {
 		c.ruleReportGate()
 		c.ruleGateBeforeDedup("testonly", "packageonly")
 		c.rulePruneGate("immutable", "constructor", "testonly", "packageonly")
+		// the checkers that consult the set themselves ask about the code they report, at the position they report
+		c.only([]string{"IGNORE-GATE", "FLOOR"}, func() {
+			c.ruleSitesTONL()
+			c.ruleSitesPKGO()
+		})
 		c.ruleIgnoreSetContains()
 		c.ruleIgnoreSetAdd()
 		c.ruleHierarchy()
@@ -162,6 +170,8 @@ func init() {
 		c.ruleNoWalkInReader()
 		// every declaration, spec, doc line and declared name is read: no list of the reader is cut short
 		c.ruleIter("annotations", "ignore")
+		// every recognised line takes effect: a well-formed @implements is checked whatever the other lines on the type
+		c.only([]string{"QUERY-SHAPE"}, func() { c.ruleQueries() })
 	}, Explanation: "Decision procedure: for each of the 7 keywords the language of the source regular expression (with the argument group made mandatory where the parser rejects an empty argument, all quantifiers greedy) equals the reference grammar over comment texts (no newline), by product-automaton exploration with a shortest distinguishing comment as witness; capture-group languages equal the documented argument languages; every pre-filter (Aho-Corasick dictionary, strings.Contains dispatch) is implied by the regex; the only guards on the way to a parser are its own pre-filters and the declaration-kind dispatch; the parsed text is a line of TypeSpec.Doc-else-GenDecl.Doc / FuncDecl.Doc / Field.Doc of a top-level declaration of a filtered file (no AST walk, no trailing comments); every non-nil result reaches the matching list; list arguments are split on commas, trimmed, empties dropped, codes upper-cased."})
 
 	registerProp(&propDef{ID: "C16", Rules: func(c *Ctx) {
@@ -176,8 +186,10 @@ func init() {
 			c.ruleSitesTONL()
 			c.ruleSitesPKGO()
 		})
-		// ... and nothing but that decision drops it: the once-per-file bookkeeping comes after the gate
+		// ... and nothing but that decision drops it: the once-per-file bookkeeping comes after the gate, and the walk
+		// descends whatever the gate said (a suppressed report does not take the diagnostics below it along)
 		c.ruleGateBeforeDedup("testonly", "packageonly")
+		c.rulePruneGate("immutable", "constructor", "testonly", "packageonly")
 	}, Explanation: "All outcomes of IgnoreSet.Contains enumerated (through the result cell of the range-over-func loops): false for nil/uninitialised; true iff a global token equals (slices.Contains) an element of GetCodesForCheck(code); fast reject only for pos strictly outside [MinPos,MaxPos] and only after the global phase; true iff StartPos <= pos <= EndPos for a marker taken from a range over CodeIndex[element of GetCodesForCheck(code)]; positions are only compared; Add appends every marker, indexes it under each of its codes, maintains MinPos/MaxPos as min/max; GetCodesForCheck yields ALL, category, code from a table built for every category and code."})
 
 	registerProp(&propDef{ID: "C19", Rules: func(c *Ctx) {
